@@ -70,6 +70,25 @@ static inline ref NN(ref p)
     return p;
 }
 
+/* std::ifstream / std::stringstream: an opaque environment value.  Whether a file opens and what
+ * it contains are unconstrained; copying a stream buffer into a string stream keeps nothing but
+ * that fact (the content is re-drawn when read).                                             */
+typedef struct
+{
+    bool good;
+} vstream;
+static inline vstream vstream_new(void) { return (vstream){1}; }
+#ifdef CBMC
+static inline vstream vstream_open(void) { return (vstream){nondet_bool()}; }
+uint64_t nondet_stream_content(void);
+#define vstream_str_sid(s) ((sid)nondet_stream_content())
+#else
+static inline vstream vstream_open(void) { return (vstream){0}; }
+#define vstream_str_sid(s) ((sid)0)
+#endif
+static inline bool vstream_good(vstream s) { return s.good; }
+static inline void vstream_put(vstream *dst, vstream src) { (void)dst; (void)src; }
+
 #include <float.h>
 #include <limits.h>
 #include <math.h>
